@@ -457,6 +457,20 @@ func (p *c01) RunCase(ctx *runner.Ctx) runner.CaseResult {
 					cond = &refmodel.Cond{Op: "or", Kids: []*refmodel.Cond{cond, {Op: "notexists", Args: []refmodel.Operand{{Kind: "path", Path: pb}}}}}
 				}
 				op = mon.WithCond(op, cond, val.Item{}, refmodel.RenderOpts{})
+			} else if op.Kind == adapt.OpDelete && r.Intn(2) == 0 {
+				// ... or is a membership test with ONE member, on the flag (a BOOL) or on the whole list: "b IN (:f)",
+				// "l IN (:whole)" - it deletes exactly when the stored attribute equals that member
+				values := val.Item{}
+				var cond *refmodel.Cond
+				if r.Intn(2) == 0 {
+					values[":f"] = val.Bool(r.Intn(2) == 0)
+					cond = &refmodel.Cond{Op: "in", Args: []refmodel.Operand{{Kind: "path", Path: refmodel.P("b")}, {Kind: "val", Val: ":f"}}}
+				} else {
+					values[":whole"] = mon.Pick(r, []val.V{val.List(val.Str("x"), val.Num("1")), val.List(val.Str("x"), val.Num("1.0")), val.List(val.Str("x"))})
+					cond = &refmodel.Cond{Op: "in", Args: []refmodel.Operand{{Kind: "path", Path: refmodel.P("l")}, {Kind: "val", Val: ":whole"}}}
+				}
+				op = mon.WithCond(op, cond, values, refmodel.RenderOpts{})
+				x.r.Counters["deletes_guarded_by_a_single_member_in"]++
 			}
 			if op.Kind == adapt.OpGet && r.Intn(2) == 0 {
 				// a read that names the attributes it wants (names that begin alike - n / near, l / lg, a / #a - are
